@@ -129,13 +129,65 @@ def opt_float(s):
     return None if q is None else float(q)
 
 
+class Ambient:
+    """ambient numeric state stream: every implementation call that returns a finite value in the default state (i.e. an
+    input on which the model defines a value) is repeated under numpy's strict error state and with warnings as errors."""
+    ctx = None
+    case = None
+    judged = {}
+    not_judged = {}
+    MODES = ("errstate-all-raise", "warnings-as-errors")
+
+    @classmethod
+    def reset(cls, ctx):
+        cls.ctx, cls.case, cls.judged, cls.not_judged = ctx, None, {}, {}
+
+    @classmethod
+    def run_mode(cls, mode, fn, args):
+        import warnings
+
+        if mode == "errstate-all-raise":
+            with np.errstate(all="raise"):
+                return fn(*args)
+        with warnings.catch_warnings():
+            warnings.simplefilter("error")
+            with np.errstate(divide="warn", over="warn", invalid="warn", under="ignore"):  # numpy's default state
+                return fn(*args)
+
+    @classmethod
+    def check(cls, fn, args, base):
+        name = fn.__name__
+        if not finite(base):
+            # the unchanged code itself trips here (FloatingPointError / RuntimeWarning on 0/0): these are exactly the inputs
+            # on which the model returns None - zero vectors / zero columns and the two KNOWN findings - so nothing is expected
+            k = "%s: default-state result not finite (model: nan; zero vector / zero column / known finding)" % name
+            cls.not_judged[k] = cls.not_judged.get(k, 0) + 1
+            return
+        for mode in cls.MODES:
+            k = "%s|%s" % (name, mode)
+            cls.judged[k] = cls.judged.get(k, 0) + 1
+            try:
+                r = cls.run_mode(mode, fn, args)
+            except Exception as e:  # noqa: BLE001
+                cls.ctx.fail("oracle", "gen.%s raises %s (%s) under %s on an input for which it returns the finite value %r in numpy's default state"
+                             % (name, type(e).__name__, str(e)[:80], mode, base), cls.case, key="C18:%s:ambient-%s" % (name, mode))
+                continue
+            a, b = np.asarray(r, dtype=complex), np.asarray(base, dtype=complex)
+            if a.shape != b.shape or not np.allclose(a, b, rtol=0, atol=1e-12):
+                cls.ctx.fail("oracle", "gen.%s returns %r under %s but %r in the default state" % (name, r, mode, base), cls.case,
+                             key="C18:%s:ambient-%s-value" % (name, mode))
+
+
 def call(fn, *args):
-    """(value, None) or (None, exception)."""
+    """(value, None) or (None, exception); finite results are re-run under the ambient numeric states (class Ambient)."""
     try:
         with np.errstate(all="ignore"):
-            return fn(*args), None
+            val = fn(*args)
     except Exception as e:  # noqa: BLE001 - the model says which inputs raise
         return None, e
+    if Ambient.ctx is not None:
+        Ambient.check(fn, args, val)
+    return val, None
 
 
 def witness(phi):
@@ -334,6 +386,7 @@ class Runner:
     # ---- a single shape: MPC, MCF, MPD on phi and on c*phi, MAC(c phi, phi), MAC with the real vector
     def shape(self, case):
         ctx = self.ctx
+        Ambient.case = case
         phi = uncv(case["phi"])
         c = complex(*case["c"])
         n = len(phi)
@@ -460,6 +513,7 @@ class Runner:
     # ---- two sets of shapes
     def mac(self, case):
         ctx = self.ctx
+        Ambient.case = case
         X, A = uncmat(case["X"]), uncmat(case["A"])
         c, d = complex(*case["c"]), complex(*case["d"])
         dt, dt2, nd, nd2, T, AD, low = form_of(case)
@@ -543,6 +597,7 @@ class Runner:
     # ---- modal scale factor
     def msf(self, case):
         ctx = self.ctx
+        Ambient.case = case
         v = uncv(case["v"])
         dt, dt2, nd, nd2, T, AD, low = form_of(case)
         if case.get("form"):
@@ -613,6 +668,7 @@ class Runner:
     # ---- 2-D call forms of MCF / MSF are the per-column vector forms
     def columns(self, case):
         ctx = self.ctx
+        Ambient.case = case
         X = uncmat(case["X"])
         r = np.asarray(case["r"], dtype=float)
         dt, dt2, nd, nd2, T, AD, low = form_of(case)
@@ -649,6 +705,12 @@ def run(ctx):
         "numpy.cov / numpy.linalg.eigvals enter MPC only through trace and determinant (C18_mpc_eig, C18_mpc_factor)",
     ]
     R = Runner(ctx)
+    Ambient.reset(ctx)
+    ctx.extra["ambient_modes"] = dict(
+        modes={"errstate-all-raise": "np.errstate(all='raise')", "warnings-as-errors": "warnings.simplefilter('error') under numpy's default error state"},
+        expectation="the unchanged code supports both modes for all five indicators on every input where it returns a finite value "
+                    "(established on 3000 shapes incl. exact zero components, purely real / imaginary shapes): same value, no exception",
+        judged=Ambient.judged, not_judged=Ambient.not_judged)
     if ctx.replay:
         c = json.load(open(ctx.replay))
         R.dispatch(c.get("case", c))
